@@ -426,6 +426,24 @@ func c19Proto(c *Ctx, infos []mappingInfo) {
 			if nilMsg || fromCtor {
 				continue
 			}
+			// a refusal decided by the kind alone (however the test is written: a switch default, a range test or a
+			// table lookup on the interpolation before the dispatch) is the unknown-kind refusal
+			kindOnly, sawKind := true, false
+			for _, cd := range p.Conds {
+				cd.Term.walk(func(x *Term) bool {
+					if x.Op == "field" && len(x.Args) == 1 && x.Args[0].isParam(0) {
+						if x.Sym == "Interpolation" {
+							sawKind = true
+						} else {
+							kindOnly = false
+						}
+					}
+					return true
+				})
+			}
+			if kindOnly && sawKind {
+				continue
+			}
 			if inArm[p] {
 				// the default arm (unknown kind) is an arm; a known kind's arm returning its own error is not
 				isDefault := false
